@@ -73,6 +73,18 @@ macro_rules! proof_decl {
             $body(&mut s);
         }
     };
+    // S4 + S7: from_utf8 and is_ascii = byte-level reference definitions
+    (s47, $name:ident, $unwind:expr, $body:expr) => {
+        #[cfg(kani)]
+        #[kani::proof]
+        #[kani::unwind($unwind)]
+        #[kani::stub(core::str::from_utf8, $crate::stubs::from_utf8_model)]
+        #[kani::stub(str::is_ascii, $crate::stubs::is_ascii_model)]
+        fn $name() {
+            let mut s = $crate::src::KSrc;
+            $body(&mut s);
+        }
+    };
     // S1 + S3 (chains: real hash, has_legal_moves = harness-owned bool)
     (s13, $name:ident, $unwind:expr, $body:expr) => {
         #[cfg(kani)]
